@@ -8,7 +8,8 @@ CONTRACTS = {
     'mjv_initGeom': {      # engine_vis_init.c: fills in the fields of ONE geom (assumed; it takes no scene)
         'assumed': True, 'requires': {}, 'assigns': ['geom[*]'],
         'ensures': {'only_this_geom': 'forall(lambda k: implies(k != off(geom), at(geom, k).segid == old(at(geom, k).segid)'
-                                       ' and at(geom, k).objid == old(at(geom, k).objid) and at(geom, k).type == old(at(geom, k).type)))'},
+                                       ' and at(geom, k).objid == old(at(geom, k).objid) and at(geom, k).type == old(at(geom, k).type)'
+                                       ' and at(geom, k).objtype == old(at(geom, k).objtype) and at(geom, k).category == old(at(geom, k).category)))'},
     },
     'acquireGeom': {
         'requires': {'inv': 'INV'},
@@ -20,8 +21,10 @@ CONTRACTS = {
             'count_unchanged': 'scn.ngeom == old(scn.ngeom) and scn.maxgeom == old(scn.maxgeom)',
             'returns_next_slot': 'implies(result != NULL, same_obj(result, scn.geoms) and off(result) == scn.ngeom)',
             'segid_is_slot': 'implies(result != NULL, scn.geoms[scn.ngeom].segid == scn.ngeom)',
+            'slot_identifies_the_object_it_was_acquired_for': 'implies(result != NULL, scn.geoms[scn.ngeom].objid == objid and scn.geoms[scn.ngeom].objtype == objtype and scn.geoms[scn.ngeom].category == category)',
             'earlier_geoms_untouched': 'forall(lambda k: implies(0 <= k and k < scn.ngeom, scn.geoms[k].segid == old(scn.geoms[k].segid)'
-                                       ' and scn.geoms[k].objid == old(scn.geoms[k].objid) and scn.geoms[k].type == old(scn.geoms[k].type)))',
+                                       ' and scn.geoms[k].objid == old(scn.geoms[k].objid) and scn.geoms[k].type == old(scn.geoms[k].type)'
+                                       ' and scn.geoms[k].objtype == old(scn.geoms[k].objtype) and scn.geoms[k].category == old(scn.geoms[k].category)))',
             'inv': 'INV',
         },
         'no_error': True,
@@ -38,4 +41,99 @@ CONTRACTS = {
         # the error exit is taken exactly when the pointer is not the most recently acquired slot
         'error_only_if': 'not (same_obj(old(geom[0]), old(scn.geoms)) and off(old(geom[0])) == old(scn.ngeom)) or old(geom[0]) == NULL',
     },
+    'mju_n2f': {'assumed': True, 'requires': {'n': 'n >= 0'}, 'assigns': ['res[*]'], 'ensures': {}},       # numeric conversion (values not modelled: opaque floats)
 }
+
+# mjv_initGeom on its real body: which fields it writes (frame) and the integer fields it sets; used by acquireGeom / addGeom* through the
+# assumed form above, so this unit is what backs "it fills in ONE geom and leaves the identifying fields alone"
+WRITTEN = ['type', 'size[*]', 'pos[*]', 'mat[*]', 'rgba[*]', 'dataid', 'matid', 'texid', 'texuniform', 'texrepeat[*]', 'texcoord', 'emission', 'specular', 'shininess',
+           'reflectance', 'label[*]', 'modelrbound']
+INIT_GEOM = {
+    'params': {'geom': {'n': 1}, 'size': {'n': 3, 'null': True}, 'pos': {'n': 3, 'null': True}, 'mat': {'n': 9, 'null': True}, 'rgba': {'n': 4, 'null': True}},
+    'requires': {},
+    'assigns': ['geom.' + w for w in WRITTEN],
+    'ensures': {
+        'type_is_the_argument': 'geom.type == type',
+        'integer_defaults': 'geom.dataid == -1 and geom.matid == -1 and geom.texid == -1 and geom.texuniform == 0 and geom.texcoord == 0',
+        'identifying_fields_untouched': 'geom.objid == old(geom.objid) and geom.objtype == old(geom.objtype) and geom.category == old(geom.category) and geom.segid == old(geom.segid)',
+    },
+    'no_error': True,
+}
+
+
+# addGeomGeoms: the model geoms whose category is unmasked and whose (clamped) group is enabled are added in index order, each through
+# acquireGeom / mjv_initGeom with its own world pose and size; nothing is written beyond the scene capacity.
+from contracts import modeltab
+NGROUP = modeltab.int_macros()['mjNGROUP']        # read from mjvisualize.h on every run
+GRP = 'imax(0, imin(%d - 1, m.geom_group[g]))' % NGROUP
+CAT = '(mjCAT_STATIC if m.body_weldid[m.geom_bodyid[g]] == 0 else mjCAT_DYNAMIC)'
+ADD_DEFS = {
+    'SHOWN': 'lambda g: (band(%s, catmask) != 0) and vopt.geomgroup[%s] != 0' % (CAT, GRP),
+    'band': "lambda x, y: z3.Function('band32', z3.IntSort(), z3.IntSort(), z3.IntSort())(x % 2**32, y % 2**32)",
+    'N0': 'old(scn.ngeom)',
+}
+M_GEOM = {'n': 1, 'ptrfields': dict({k: {'len': 'm.ngeom'} for k in ('geom_type', 'geom_bodyid', 'geom_group', 'geom_dataid', 'geom_rbound', 'geom_matid', 'geom_contype', 'geom_conaffinity')},
+                                    **{'geom_size': {'len': '3 * m.ngeom'}, 'geom_rgba': {'len': '4 * m.ngeom'}, 'body_weldid': {'len': 'm.nbody'}, 'body_dofnum': {'len': 'm.nbody'},
+                                       'body_dofadr': {'len': 'm.nbody'}, 'dof_treeid': {'len': 'm.nv'}, 'tree_dofadr': {'len': 'm.ntree'}, 'mesh_texcoordadr': {'len': 'm.nmesh'},
+                                       'mesh_graphadr': {'len': 'm.nmesh'}, 'mat_texrepeat': {'len': '2 * m.nmat'}})}
+D_GEOM = {'n': 1, 'ptrfields': {'geom_xpos': {'len': '3 * m.ngeom'}, 'geom_xmat': {'len': '9 * m.ngeom'}, 'dof_island': {'len': 'm.nv'}, 'island_dofadr': {'len': 'd.nisland'},
+                                'body_awake': {'len': 'm.nbody'}, 'tree_asleep': {'len': 'm.ntree'}}}
+ASSUMED_FRAME = lambda tgt: {'assumed': True, 'requires': {}, 'assigns': tgt, 'ensures': {}}
+ADD_GEOMS = {
+    'params': {'m': M_GEOM, 'd': D_GEOM, 'vopt': {'n': 1}, 'pert': {'n': 1}, 'scn': SCN},
+    'defs': ADD_DEFS,
+    'requires': {
+        'inv': 'INV',
+        'sizes': ' and '.join('0 <= m.%s and m.%s < 2**28' % (k, k) for k in ('ngeom', 'nbody', 'nv', 'ntree', 'nmesh', 'nmat')) + ' and 0 <= d.nisland and d.nisland < 2**28 and m.nbody >= 1',
+        'model_ids': 'forall(lambda g: implies(0 <= g and g < m.ngeom, 0 <= m.geom_bodyid[g] and m.geom_bodyid[g] < m.nbody and -1 <= m.geom_matid[g] and m.geom_matid[g] < m.nmat and '
+                     'implies((m.geom_type[g] == mjGEOM_MESH or m.geom_type[g] == mjGEOM_SDF), 0 <= m.geom_dataid[g] and m.geom_dataid[g] < m.nmesh))) and '
+                     'forall(lambda b: implies(0 <= b and b < m.nbody, 0 <= m.body_weldid[b] and m.body_weldid[b] < m.nbody and 0 <= m.body_dofnum[b] and '
+                     'implies(m.body_dofnum[b] > 0, 0 <= m.body_dofadr[b] and m.body_dofadr[b] < m.nv))) and '
+                     'forall(lambda q: implies(0 <= q and q < m.nv, 0 <= m.dof_treeid[q] and m.dof_treeid[q] < m.ntree and -1 <= d.dof_island[q] and d.dof_island[q] < d.nisland))',
+    },
+    'assigns': ['scn.status', 'scn.ngeom', 'scn.geoms[*]'],
+    'ensures': {
+        'never_beyond_capacity': 'INV and scn.ngeom >= N0',
+        'added_slots_are_model_geoms_with_their_slot_number': 'forall(lambda k: implies(N0 <= k and k < scn.ngeom, scn.geoms[k].objtype == mjOBJ_GEOM and 0 <= scn.geoms[k].objid and scn.geoms[k].objid < m.ngeom and scn.geoms[k].segid == k))',
+        'only_geoms_of_an_unmasked_category_and_enabled_group_are_added': 'forall(lambda k: implies(N0 <= k and k < scn.ngeom, SHOWN(scn.geoms[k].objid)))',
+        'added_in_index_order': 'forall(lambda k: implies(N0 < k and k < scn.ngeom, scn.geoms[k - 1].objid < scn.geoms[k].objid))',
+        'earlier_scene_geoms_keep_their_identity': 'forall(lambda k: implies(0 <= k and k < N0, scn.geoms[k].objid == old(scn.geoms[k].objid) and scn.geoms[k].objtype == old(scn.geoms[k].objtype) and scn.geoms[k].segid == old(scn.geoms[k].segid)))',
+    },
+    'loops': {0: {'invariant': {
+        'range': '0 <= i and i <= m.ngeom and INV and scn.ngeom >= N0 and planeid >= -1 and planeid < i',
+        'added_are_model_geoms': 'forall(lambda k: implies(N0 <= k and k < scn.ngeom, scn.geoms[k].objtype == mjOBJ_GEOM and 0 <= scn.geoms[k].objid and scn.geoms[k].objid < i and scn.geoms[k].segid == k))',
+        'added_are_shown': 'forall(lambda k: implies(N0 <= k and k < scn.ngeom, SHOWN(scn.geoms[k].objid)))',
+        'added_in_index_order': 'forall(lambda k: implies(N0 < k and k < scn.ngeom, scn.geoms[k - 1].objid < scn.geoms[k].objid))',
+        'earlier': 'forall(lambda k: implies(0 <= k and k < N0, scn.geoms[k].objid == old(scn.geoms[k].objid) and scn.geoms[k].objtype == old(scn.geoms[k].objtype) and scn.geoms[k].segid == old(scn.geoms[k].segid)))',
+    }}, 1: {'unroll': 3}, 2: {'unroll': 2}},
+}
+
+
+def _acquired_slot(exe, st, args, node):
+    """caller-side result of acquireGeom: the address of slot scn->ngeom of scn->geoms, NULL exactly when the scene is full (the
+    proved postconditions null_iff_full / returns_next_slot, as a pointer value)"""
+    scn = args[0]
+    fld = lambda f: st.load(exe._normalize(scn.with_(path=scn.path + (f,), ct=scn.ct.field(f))))
+    geoms, ngeom, maxgeom = fld('geoms'), fld('ngeom'), fld('maxgeom')
+    return exe.ptr_add(geoms, ngeom).with_(isnull=ngeom >= maxgeom)
+
+
+def add_contracts():
+    C = dict(CONTRACTS)
+    C['__defs__'] = dict(DEFS)
+    C['__auto_inline__'] = True        # small helpers of the same file without a contract are executed in place
+    acq = dict(CONTRACTS['acquireGeom'], result=_acquired_slot)
+    acq['ensures'] = {k: v for k, v in acq['ensures'].items() if k != 'returns_next_slot'}
+    C['acquireGeom'] = acq
+    C.update({
+        'addGeomGeoms': ADD_GEOMS, 'bodycategory': {'inline': True},
+        'mjv_initGeom': dict(INIT_GEOM, assumed=True),          # proved on its own body above
+        'setMaterial': ASSUMED_FRAME(['geom.matid', 'geom.texuniform', 'geom.texrepeat[*]', 'geom.emission', 'geom.specular', 'geom.shininess', 'geom.reflectance', 'geom.rgba[*]', 'geom.texid']),
+        'islandColor': ASSUMED_FRAME(['rgba[*]']), 'markselected': ASSUMED_FRAME(['geom.emission', 'geom.rgba[*]', 'geom.specular', 'geom.shininess']),
+        'makeLabel': ASSUMED_FRAME(['label[*]']),
+        'mju_copy3': ASSUMED_FRAME(['res[*]']), 'mju_transpose': ASSUMED_FRAME(['res[*]']), 'mju_addToScl3': ASSUMED_FRAME(['res[*]']),
+        'mju_dot3': {'assumed': True, 'requires': {}, 'assigns': [], 'pure': True, 'ensures': {}},
+        'mju_round': {'assumed': True, 'requires': {}, 'assigns': [], 'pure': True, 'ensures': {}},
+        'mj_sleepCycle': {'assumed': True, 'requires': {}, 'assigns': [], 'pure': True, 'ensures': {'a_tree_of_the_cycle': '0 <= result and result < ntree'}},      # called for a sleeping tree; its cycle is intact (C18)
+    })
+    return C
